@@ -157,6 +157,7 @@ func cmdVerify(argv []string) {
 	}
 	var jobs []job
 	for _, t := range tgts {
+		ex.targetPkgs[t.con.PkgPath] = true
 		if t.con.Trusted {
 			ex.assumed["trusted contract (not verified): "+t.key] = true
 			continue
